@@ -31,6 +31,9 @@ pub fn run(ctx: &Ctx) -> i32 {
         let cfg = cfg_for(t, exact);
         st.merge(ctx.run_prop(name, total / 2, move || recipe_strategy(len), move |r| Some(HistCase { oracle: "c08".into(), hist: elaborate(&cfg, r) })));
     }
+    if ctx.tier == Tier::Thorough {
+        st.merge(ctx.run_fuzz(20000, ctx.threads, &dispatch));
+    }
     finish(
         ctx,
         st,
